@@ -54,6 +54,8 @@ type HarnessSpec struct {
 	GoMaxProcs int      `json:"gomaxprocs"`
 	Sched      bool     `json:"sched"`
 	Preempt    int      `json:"preempt"`
+	SkipInit   bool     `json:"skip_init"`
+	InitPkgs   []string `json:"init_pkgs"`
 	Quick      TierCfg  `json:"quick"`
 	Thorough   TierCfg  `json:"thorough"`
 	Bounds     string   `json:"bounds"`  // human-readable statement of the bound
@@ -664,6 +666,7 @@ func cmdCheck(args []string) int {
 		h := &interp.Harness{
 			Name: hs.Func, Fn: fn, Mode: mode, Thorough: tier == "thorough",
 			MapOrder: hs.MapOrder, MapPermMax: hs.MapPermMax, MaxMake: hs.MaxMake, GoMaxProcs: hs.GoMaxProcs,
+			SkipInit: hs.SkipInit, InitPkgs: hs.InitPkgs,
 			Sched: hs.Sched, Preempt: hs.Preempt, Covers: hs.Covers, MaxPaths: tc.MaxPaths, Solvers: solvers, Samples: 16,
 			Race: mode == smt.ModeInt && os.Getenv("SYMGO_NORACE") == "",
 		}
